@@ -310,6 +310,8 @@ def make_datasets(case, with_targets=None):
                 # (IndexError on spec.shape[0]); scalar labels are therefore given shape (1,) in that layout
                 L = L.reshape(-1, 1)
     T = np.array(case["targets"], dtype=np.float32) if case["targets"] is not None else None
+    if T is not None and case.get("int_targets"):
+        T = T.astype(np.int32)                 # one-hot targets stored as integers (queries may still carry probabilities)
     cont = case["container"]
     bs = case["bs"]
     if cont == "np":
